@@ -167,11 +167,6 @@ def nlsf2aTailTrace (a32 : List Int) : List Int :=
   lpcFitLoopTrace 10 a32 0 ++ lpcFitFinalTrace a32 ++
     nlsf2aLoopTrace SilkNlsf.maxLpcStabilizeIterations 0 (lpcFit a32 5).2 (lpcFit a32 5).1
 
-/-- All operands of `(opus_int16)` casts in `silk_NLSF2A` (those of silk_LPC_fit, then those of
-    the stabilisation loop). -/
-def nlsf2aCasts (a32 : List Int) : List Int :=
-  lpcFitCasts a32 ++ nlsf2aLoopCasts SilkNlsf.maxLpcStabilizeIterations 0 (lpcFit a32 5).2 (lpcFit a32 5).1
-
 /-- Everything after `a32_QA1`: no wrap, no division by zero, no truncating cast, provided
     `a32_QA1` holds `d ≤ 16` values of magnitude at most `2^31 - 1`. -/
 theorem nlsf2aTail_range (a32 : List Int) (hne : a32 ≠ []) (hlen : a32.length ≤ 16)
@@ -192,6 +187,32 @@ theorem nlsf2aTail_range (a32 : List Int) (hne : a32 ≠ []) (hlen : a32.length 
     rcases List.mem_append.mp hv with h | h
     · exact hf.2.2.1 v h
     · exact hloop.2 v h
+
+theorem truncCount_zero (l : List Int) (h : ∀ v ∈ l, I16 v) : truncCount l = 0 := by
+  unfold truncCount
+  rw [List.length_eq_zero_iff, List.filter_eq_nil_iff]
+  intro v hv
+  rw [wrap16_id (h v hv)]
+  simp
+
+/-- The instrumented model function the driver evaluates (`tr=` field of the `nlsf2a` op) is
+    `silk_NLSF2A` paired with the number of truncating casts. -/
+theorem nlsf2aTr_eq (nlsf c : List Int) (hd : nlsf.length = 10 ∨ nlsf.length = 16)
+    (hc : nlsf2aCosQA nlsf = .ok c) :
+    nlsf2aTr nlsf = .ok (nlsf2aLoop SilkNlsf.maxLpcStabilizeIterations 0 (lpcFit (nlsf2aPoly c) 5).2
+      (lpcFit (nlsf2aPoly c) 5).1, truncCount (nlsf2aCasts (nlsf2aPoly c))) := by
+  unfold nlsf2aCosQA at hc
+  unfold nlsf2aTr
+  simp only
+  rw [if_neg (by omega)]
+  cases hv : cosLsfAll nlsf with
+  | ok vals =>
+    simp only [hv, bind, Res.bind, pure] at hc ⊢
+    cases hc
+    rfl
+  | err e => simp only [hv, bind, Res.bind] at hc; cases hc
+  | oob => simp only [hv, bind, Res.bind] at hc; cases hc
+  | abort => simp only [hv, bind, Res.bind] at hc; cases hc
 
 /-- The in-range but unordered input on which `a32_QA1[7] = -Qtmp - Ptmp` and
     `a32_QA1[9] = Qtmp - Ptmp` leave 32 bits (`-3186360320`, `-2549088256` `< -2^31`): signed
